@@ -21,7 +21,7 @@ RULE = ('a non-exclusive request K (kill with a per-request graceful_timeout abo
 ASSUMPTIONS = ['budget: 50 ms of virtual time slept per loop iteration (reap_process legitimately sleeps 1 ms at a time for a dying worker)',
                'completion bound: 2*max(graceful timeouts in force) + n*warmup + 1 s after acceptance']
 
-KS = ['none', 'kill-long', 'kill-short', 'kill-pid', 'signal']
+KS = ['none', 'kill-long', 'kill-short', 'kill-pid', 'signal', 'kill-3s']
 READONLY = [('status', {'name': 'a'}), ('list', {'name': 'a'}), ('list', {}), ('numprocesses', {'name': 'a'}),
             ('numprocesses', {}), ('options', {'name': 'a'}), ('numwatchers', {}), ('get', {'name': 'a', 'keys': ['numprocesses']}),
             ('globaloptions', {}), ('listsockets', {}), ('status', {}), ('stats', {'name': 'a'}), ('dstats', {})]
@@ -36,6 +36,7 @@ def scenarios(tier):
                 out.append(Scenario('ks', k=k, pat=pat, n=n, w=0.0, probe=False))
     for pat in ('obedient', 'stubborn'):
         out.append(Scenario('ks', k='none', pat=pat, n=2, w=0.25, probe=False))
+    out = [s_ for s_ in out if not (s_.p.get('k') == 'kill-3s' and s_.p.get('pat') != 'stubborn')]
     # on-demand watcher: a worker dies / incr after the first connection, then the next socket event
     for tail in ('die', 'incr'):
         out.append(Scenario('ondemand', tail=tail, n=2, nodet=True))
@@ -108,6 +109,10 @@ def run(scn, ch):
         if k == 'kill-long':
             world.request('kill', name='a', graceful_timeout=1.0)
             gmax = 1.0
+        elif k == 'kill-3s':
+            # a grace period of the request that exceeds the watcher's own by more than a second
+            world.request('kill', name='a', graceful_timeout=3.0)
+            gmax = 3.0
         elif k == 'kill-short':
             world.request('kill', name='a', graceful_timeout=0.1)
         elif k == 'kill-pid':
